@@ -41,6 +41,8 @@ def run(cmd, cwd=None, env=None, timeout=None, check=False):
     e = dict(os.environ)
     if env:
         e.update(env)
+    if "tlc" in cmd and "JAVA_TOOL_OPTIONS" not in e:
+        e["JAVA_TOOL_OPTIONS"] = "-Xss512m"      # TLC's recursive evaluation crawls with the default thread stack
     try:
         p = subprocess.run(cmd, cwd=cwd, env=e, timeout=timeout, stdout=subprocess.PIPE,
                            stderr=subprocess.STDOUT, text=True, errors="replace")
@@ -273,3 +275,38 @@ def write_ndjson(path, rows):
         for r in rows:
             f.write(json.dumps(r, separators=(",", ":")))
             f.write("\n")
+
+
+# ------------------------------------------------------------------ BigNat accelerator
+def bignat_accelerator(wd, out=None, rnd_seed=1):
+    """compile the optional Java override of BigNat!Mul (if a compiler is there) and check it against the TLA+
+    definition on boundary + random operands; without javac the pure TLA+ definition is used (slower, same meaning)"""
+    import random
+    cls = os.path.join(SPEC, "BigNat.class")
+    src = os.path.join(SPEC, "BigNat.java")
+    if (not os.path.exists(cls)) or os.path.getmtime(cls) < os.path.getmtime(src):
+        rc, o = run(["javac", "-cp", "/opt/veriftools/tla/tla2tools.jar", "-d", SPEC, src], timeout=300)
+        if rc != 0:
+            if os.path.exists(cls):
+                os.remove(cls)
+            if out is not None:
+                out.notes.append("BigNat accelerator not built (javac failed): pure TLA+ arithmetic is used")
+            return False
+    r = random.Random(rnd_seed)
+    pairs = []
+    edge = [[], [1], [255], [0, 1], [255] * 32, [255] * 33, [1] + [0] * 31 + [1]]
+    for a in edge:
+        for b in edge:
+            pairs.append({"a": a, "b": b})
+    for _ in range(150):
+        pairs.append({"a": [r.randrange(256) for _ in range(r.choice([1, 8, 31, 32, 33, 64]))][:-1] + [r.randrange(1, 256)],
+                      "b": [r.randrange(256) for _ in range(r.choice([1, 8, 31, 32, 33, 64]))][:-1] + [r.randrange(1, 256)]})
+    pp = os.path.join(wd, "bignat_pairs.ndjson")
+    write_ndjson(pp, pairs)
+    rc, o = run(["timeout", "600", "tlc", "-workers", "1", "-metadir", os.path.join(wd, "bn"), "-cleanup", "-config", "BigNatCheck.cfg", "BigNatCheck.tla"],
+                cwd=SPEC, env={"PAIRS": pp, "JAVA_TOOL_OPTIONS": "-Xss512m"}, timeout=700)
+    if "BIGNAT-SELFCHECK" not in o or "Model checking completed. No error has been found" not in o:
+        raise ToolError("BigNat accelerator disagrees with its TLA+ definition (or the self-check failed):\n" + o[-2000:])
+    if out is not None:
+        out.notes.append(f"BigNat!Mul override (java.math.BigInteger) active; equal to its TLA+ definition on {len(pairs)} boundary/random operand pairs of this run")
+    return True
